@@ -21,6 +21,30 @@ CHECKS = {
         design_ref="5 C20"),
 }
 
+CHECKS["C02"] = dict(
+    engine="raftlog",
+    technique="TLA+ contract RaftLog.tla (TLC: invariants + ReopenIdentity/TruncateExact action properties), "
+              "TLC-simulated behaviours replayed on the real LogInnerManager and on FileStore (mini node, reopen = new "
+              "process), recorded native-size histories validated by TLC (Trace_RaftLog)",
+    text="The abstract log contract is model-checked; conformance both ways: after every step of every TLC-generated "
+         "behaviour the complete readable log, sub-range reads, end index and last (index, term) of the real code are "
+         "compared with the contract - on one log file with index intervals 2/3/4/128 injected through the file header "
+         "and record sizes in 64/128-byte units (record ends meet 1024-byte read chunks, 2- and 3-byte index deltas), "
+         "and on the multi-file store with compaction pointers across real process restarts; seeded native-size "
+         "histories of the real file are validated by TLC against the same contract.",
+    note="clean stop only (crash points are C04); index-area rollover (173k+ records) only in thorough tier; "
+         "trusts TLC, harness projection (payload id embedded in the payload bytes)",
+    design_ref="5 C02")
+CHECKS["C03"] = dict(
+    engine="raftlog",
+    technique="TLA+ contract RaftLog.tla (TruncateExact action property), truncation-biased TLC behaviours replayed on "
+              "LogInnerManager and FileStore before and after reopen, trace validation of recorded histories",
+    text="Same machinery as C02 with the truncation-biased next-state relation SpecTrunc: every cut point, re-append "
+         "of shorter/equal/longer entries, reopen; shapes: one file, pointer file + file (after two compactions).",
+    note="truncation across a rolled-over (closed) data file needs a 173k-record file and is only reached in the "
+         "thorough tier; clean stop only",
+    design_ref="5 C03")
+
 NOT_YET = {}
 
 
